@@ -120,7 +120,7 @@ EmitFindings(r, k, e, c, bytes, lx, step, g2, isBody, more) ==
    \o (IF e.len > pos /\ lx.known /\ lx.ok /\ lx.nxt > e.len + 1
        THEN <<V(r, k, "C11", "step does not span exactly one opcode"),
               V(r, k, "C04", "opcode argument extends beyond the bytes emitted by the step")>> ELSE <<>>)
-   \o (IF more THEN <<V(r, k, "C11", "step emitted more than one opcode")>> ELSE <<>>)
+   \o (IF more /\ isBody THEN <<V(r, k, "C11", "body step emitted more than one opcode")>> ELSE <<>>)
    \o (IF lx.known /\ lx.op \in ExtOps /\ c.ext = 0 THEN <<V(r, k, "C10", "EXT opcode although not enabled")>> ELSE <<>>)
    \o (IF lx.known /\ lx.op \in BufOps /\ c.buf = 0 THEN <<V(r, k, "C10", "buffer opcode although not enabled")>> ELSE <<>>)
    \o (IF lx.known /\ lx.op = B_FRAME /\ e.ph # PH_reserve THEN <<V(r, k, "C06", "FRAME outside the header")>> ELSE <<>>)
@@ -140,7 +140,7 @@ EmitFindings(r, k, e, c, bytes, lx, step, g2, isBody, more) ==
        THEN <<V(r, k, "C15", "value mutated or bytes rewritten at rate 0")>> ELSE <<>>)
    \o (IF Len(e.mu) > 1
        THEN <<V(r, k, "C15", "more than one mutator changed the value of one opcode (first applicable mutator must win)")>> ELSE <<>>)
-   \o (IF isBody /\ ~more /\ c.rate = 2 /\ e.op >= 0 /\ ValueClass(e.op) # 0
+   \o (IF isBody /\ ~more /\ e.len > pos /\ c.rate = 2 /\ e.op >= 0 /\ ValueClass(e.op) # 0
           /\ FirstApplicable(c.muts, ValueClass(e.op)) # {}
           /\ ~(0 \in FirstApplicable(c.muts, ValueClass(e.op)) /\ ~\E j \in 1..Len(e.mu) : e.mu[j][1] = ValueClass(e.op))
           /\ ~\E j \in 1..Len(e.mu) : e.mu[j][1] = ValueClass(e.op) /\ (e.mu[j][2] + 1) \in FirstApplicable(c.muts, ValueClass(e.op))
@@ -211,7 +211,7 @@ StepEvent0 ==
                      \o (IF e.ph \in EmitPhases /\ cnt.pieces = 0 /\ ~more THEN DriftFindings(r, k, e, c, gs') ELSE <<>>)
              /\ broken' = (broken \/ ~(lexd'.known /\ lexd'.ok /\ (lexd'.nxt = e.len + 1 \/ more)) \/ st'.cls \notin {"", "kind"})
              /\ cnt' = [cnt EXCEPT !.body = @ + (IF e.ph = PH_body /\ ~more THEN 1 ELSE 0),
-                                   !.tail = @ + (IF e.ph \in {PH_close, PH_collapse, PH_pad} /\ ~more THEN 1 ELSE 0),
+                                   !.tail = @ + (IF e.ph \in {PH_close, PH_collapse, PH_pad} THEN 1 ELSE 0),
                                    !.pieces = IF more THEN @ + 1 ELSE 0,
                                    !.mbroken = @ \/ \E j \in 1..Len(msgs') : msgs'[j][1] = "V" /\ msgs'[j][4] = "C17",
                                    !.ops = @ + 1,
